@@ -46,12 +46,26 @@ func userSnapshot(s *txfile.VerifSnapshot) string {
 	for _, r := range s.DataFree {
 		free = append(free, fmt.Sprintf("%d+%d", r.ID, r.Count))
 	}
-	metaFree := uint(0)
-	for _, r := range s.MetaFree {
-		metaFree += uint(r.Count)
+	// The number of free meta pages and of metadata pages is NOT included: the
+	// page-count prediction for the free list depends on how fragmented the meta
+	// free list is, which depends on page identities inside the meta area (map
+	// iteration order in the implementation), so identical runs differ there.
+	return fmt.Sprintf("root=%d dataEnd=%d dataFree=[%s] metaTotal=%d walKeys=%v maxPages=%d",
+		s.Root, s.DataEnd, strings.Join(free, " "), s.MetaTotal, keys, s.MaxPages)
+}
+
+// confirmDiff decides whether a difference between twin runs is a stable fact
+// about the implementation: both runs are repeated and the identical
+// difference must show up every time. Identical programs can (rarely) diverge
+// in meta-area internals because the implementation iterates Go maps; such a
+// divergence does not survive repetition.
+func confirmDiff(first string, again func() string, times int) bool {
+	for i := 0; i < times; i++ {
+		if again() != first {
+			return false
+		}
 	}
-	return fmt.Sprintf("root=%d dataEnd=%d dataFree=[%s] metaTotal=%d metaFree=%d walKeys=%v freelistPages=%d walPages=%d maxPages=%d",
-		s.Root, s.DataEnd, strings.Join(free, " "), s.MetaTotal, metaFree, keys, len(s.FreelistPages), len(s.WALPages), s.MaxPages)
+	return true
 }
 
 // exactSnapshot renders the complete in-memory allocator state (used for
@@ -213,15 +227,18 @@ func RunC07(p *harness.Program) Result {
 	if b.v != nil {
 		return Result{V: b.v, Counters: c}
 	}
-	b2 := runTwin(p, true)
-	if b2.v != nil {
-		return Result{V: b2.v, Counters: c}
-	}
-	if d := compareTwin(&b, &b2, tIdx, len(p.Items)); d != "" {
-		c["nondeterministic-control"]++
-		return Result{Counters: c, Nontrivial: false}
-	}
 	if d := compareTwin(&a, &b, tIdx, len(p.Items)); d != "" {
+		stable := confirmDiff(d, func() string {
+			a2, b2 := runTwin(p, false), runTwin(p, true)
+			if a2.v != nil || b2.v != nil {
+				return "run failed"
+			}
+			return compareTwin(&a2, &b2, tIdx, len(p.Items))
+		}, 3)
+		if !stable {
+			c["unstable-diff"]++
+			return Result{Counters: c}
+		}
 		return Result{V: &harness.Violation{Clause: "twin-diff", Item: tIdx, Msg: d}, Counters: c}
 	}
 	c["twin-compared"]++
